@@ -701,10 +701,38 @@ class SpecGen:
         col0 = self.width[sheet] + 1 + 3 * n
         row0 = 1 + 4 * n
         kind = rnd.choice(('lift', 'lift2', 'scalar', 'trim', 'fill', 'reduce', 'mixed', 'mixed',
-                           'copy'))
+                           'copy', 'inter', 'inter'))
         th, tw = h, w
         prec = list(src)
-        if kind == 'copy':
+        decl = []
+        inter = None
+        if kind == 'inter' and self.k['intersection']:
+            # an array formula over an intersection: the written operands are references only
+            save = self.ranges_used, self.declared_extra, self.cur_sheet
+            self.cur_sheet = sheet
+            for _ in range(12):
+                self.ranges_used, self.declared_extra = [], []
+                ro = self.range_operand()
+                if ro and ' ' in ro[0] and ':' in ro[0].split(' ')[0] and '!' not in ro[0]:
+                    inter = (ro[0], list(ro[1]), list(self.declared_extra))
+                    break
+            self.ranges_used, self.declared_extra, self.cur_sheet = save
+        if kind == 'inter' and inter is None:
+            kind = 'lift'
+        if kind == 'inter':
+            txt, cells_, decl = inter
+            rows_ = sorted({coord_rc(split_addr(a)[1])[0] for a in cells_})
+            cols_ = sorted({coord_rc(split_addr(a)[1])[1] for a in cells_})
+            th, tw = len(rows_), len(cols_)
+            prec = list(cells_)
+            if th * tw == 1:
+                # one cell times a column: the scalar is spread over the array
+                f = f'=({txt})*{src_txt}'
+                prec = list(cells_) + list(src)
+                th, tw = h, w
+            else:
+                f = f'=({txt})*{rnd.choice((2, 0.5, -1))}'
+        elif kind == 'copy':
             f = f'={src_txt}'          # blanks of the source are zeros of the array
         elif kind == 'lift':
             f = f'={src_txt}*{rnd.choice((2, 0.5, -1))}'
@@ -741,7 +769,7 @@ class SpecGen:
         block = (sheet, row0, col0, row0 + th - 1, col0 + tw - 1)
         ref = f'{sheet}!{rc_coord(row0, col0)}:{rc_coord(row0 + th - 1, col0 + tw - 1)}'
         for a in self.rect_addrs(block):
-            self.add({'a': a, 'cse': ref, 'f': f, 'p': list(prec), 'd': []})
+            self.add({'a': a, 'cse': ref, 'f': f, 'p': list(prec), 'd': list(decl)})
         self.cse_blocks.append(block)
         if self.k.get('cse_twin', True) and rnd.random() < 0.25:
             # the same formula entered a second time as an array of its own, below the first
@@ -751,7 +779,7 @@ class SpecGen:
             twin = (sheet, row0 + th + 1, col0, row0 + 2 * th, col0 + tw - 1)
             ref2 = f'{sheet}!{rc_coord(twin[1], col0)}:{rc_coord(twin[3], twin[4])}'
             for a in self.rect_addrs(twin):
-                self.add({'a': a, 'cse': ref2, 'f': f, 'p': list(prec), 'd': []})
+                self.add({'a': a, 'cse': ref2, 'f': f, 'p': list(prec), 'd': list(decl)})
             self.cse_blocks.append(twin)
         if n == 0 and rnd.random() < 0.5:
             # constants right of the block: ranges can start in the block and end outside it
